@@ -757,6 +757,8 @@ variableLoop:
 			if p.Match(TokenSymbol, "]") == nil {
 				return nil, p.Error("Missing closing bracket after subscript argument.", nil)
 			}
+			// a subscript can be followed by further parts: a[i][j], a[k].field
+			continue variableLoop
 
 		} else if p.Match(TokenSymbol, "(") != nil {
 			// Function call
